@@ -159,3 +159,22 @@ PROPS["C07"] = dict(
     technique="Lean 4 proofs over ℝ of the closed-form model (ring / linear_combination / field_simp) + binary64 execution of the same definitions against the implementation",
     assumptions=["libm kernels (cbrt, atan2, cos, hypot) agree between Lean's Float and C++ to a few ulp"],
 )
+
+PROPS["C01"] = dict(
+    harnesses=[dict(name="C01", procs_quick=4, procs_thorough=16)],
+    rule=("f ∈ {WGS84, 0, ±1e-3, ±1/150, ±0.01, ±1/64, ±0.02} (series and exact) and b/a ∈ {1/2, 2, 1/4, 4} (exact only); lat1 ∈ {±90, ±(90−1e-10), "
+          "0, ±1e-10, uniform}; azi1 ∈ {0, ±90, ±180, ±1e-10, 180−1e-10, uniform}; lengths as distance and as arc, negative, 0, 1e-9 m, up to 10 "
+          "circuits; lon1 incl. ±180, 359, −540, 720. non-trivial = finite result compared with the oracle; distinct = distinct (op, leading argument bits)"),
+    tolerances={"series": "4 × {15 nm (|f| ≤ 1/250), 26 nm (≤ 1/100), 31 nm (≤ 1/50)} × a/a_WGS84 × max(1, |σ12|/180°)",
+                "exact": "4 × {40 nm (b/a ∈ [1/2, 2]), 96 nm ([1/4, 4])} × …", "delegation / line forms": "bit-for-bit",
+                "ranges": "exact (decided in Lean)"},
+    level_text=("Theorems: the Maxima-generated series tables A1, C1, A2, C2 of Geodesic.cpp (re-extracted each run) equal the Taylor coefficients of "
+                "their generating functions (binomial series of √(1+k² sin²σ) and its reciprocal) as exact rationals (decide +kernel); the Clenshaw "
+                "loop SinCosSeries equals the trigonometric sum it represents, for every coefficient vector and argument (ℝ). The implementation is "
+                "compared with a specification oracle (defining integrals by Gauss–Legendre quadrature in 80-bit arithmetic, independent of the "
+                "library) for position, azimuth, distance/arc and unrolled longitude in all four solver configurations; output ranges are decided in "
+                "Lean on every sampled result. Partial: the nanometre error bound of the floating-point solver is not a theorem."),
+    level_note="series tables and the series order regenerated from Geodesic.cpp; oracle in x87 long double (≈1e-19 relative); published accuracy figures × 4 as tolerance",
+    technique="Lean 4 table certificates (decide +kernel over exact rationals) and exact-real Clenshaw theorem + oracle correspondence",
+    assumptions=["the generating functions are those of Karney (2013) eqs. 15–18, 41–43 (not re-derived from the integrals in Lean)"],
+)
